@@ -36,6 +36,16 @@ func genC01(seed uint64, run int, tier string) *Plan {
 	n = deepen(tier, seed, n)
 	tp := TaskPlan{Name: "client"}
 	tp.Ops = append(tp.Ops, g.seedOps(80)...)
+	if r.IntN(10) == 0 {
+		// a larger collection (generated ids, many ties under every sort key): orderings, windows and
+		// sorted one-document writes over more than a handful of documents
+		db, c := g.coll()
+		op := Op{K: "insertMany", DB: db, C: c, Ordered: true}
+		for k := 13 + r.IntN(28); k > 0; k-- {
+			op.Docs = append(op.Docs, jd(g.doc(false)))
+		}
+		tp.Ops = append(tp.Ops, op)
+	}
 	for i := 0; i < n; i++ {
 		op := g.crud()
 		if op.TTL != nil {
